@@ -249,7 +249,8 @@ def enumExact (decls : List Decl) (r : Reps) : Nat → Ty → List JsVal × Bool
       let singles := xs.map fun x => JsVal.arr [x]
       let pairs := xs3.flatMap fun x => xs3.map fun y => JsVal.arr [x, y]
       let longs := lens.flatMap fun k => xs3.map fun x => JsVal.arr (replicateList k x)
-      (((JsVal.arr [] :: singles) ++ pairs ++ longs).take (r.cap * 3), cut || xs.length > 4)
+      let all := (JsVal.arr [] :: singles) ++ pairs ++ longs
+      (all.take (r.cap * 3), cut || xs.length > 4 || all.length > r.cap * 3)
     | .tuple pre rest =>
       let parts := pre.map fun p => enumExact decls r n p
       let cut0 := parts.any (·.2)
@@ -260,7 +261,8 @@ def enumExact (decls : List Decl) (r : Reps) : Nat → Ty → List JsVal × Bool
         let (xs, cut2) := enumExact decls r n rt
         let xs3 := xs.take 3
         let tails : List (List JsVal) := [[]] ++ xs3.map (fun x => [x]) ++ xs3.flatMap (fun x => xs3.map fun y => [x, y])
-        (((heads.flatMap fun h => tails.map fun tl => JsVal.arr (h ++ tl))).take (r.cap * 3), cut0 || cut1 || cut2 || xs.length > 3))
+        let all := heads.flatMap fun h => tails.map fun tl => JsVal.arr (h ++ tl)
+        (all.take (r.cap * 3), cut0 || cut1 || cut2 || xs.length > 3 || all.length > r.cap * 3))
     | .union ts =>
       let parts := ts.map fun t => enumExact decls r n t
       (parts.flatMap (·.1), parts.any (·.2))
